@@ -44,7 +44,7 @@ def run_case(case):
     am = core.Absmap(case["naming"], case["D"])
     B, T, unit = case["sch"]
     try:
-        ds = _impl["Dataset"].from_raw_list(am.raw_dataset(case["D"]))
+        ds = _impl["Dataset"].from_raw_list(am.raw_dataset(case["D"]), name="study")     # every dataset of a process bears the same name (two files with one base name)
         ss = core.build_scheme(B, T, unit, case.get("schemeform", 0))
         if case.get("prevD"):
             # an earlier dataset (other shape, same flattened positions) served in the same process, same scheme
@@ -141,7 +141,7 @@ def _cases(dss, schemes, namings, all_schemes):
     out = []
     for k, D in enumerate(dss):
         for s in (schemes if all_schemes else [schemes[k % len(schemes)]]):
-            out.append({"D": D, "naming": namings[k % len(namings)], "sch": list(s), "schemeform": k % 4})
+            out.append({"D": D, "naming": namings[k % len(namings)], "sch": list(s), "schemeform": k % 5})
     return out
 
 
